@@ -814,6 +814,10 @@ def run_case(desc: dict, monitors=(), gsc_cap=30000, run=True) -> Ctx:
                         ctx.emit("tree_ready", tree)
                         if run:
                             tree.run()
+                            if desc.get("rerun"):
+                                # calling run() again on a finished tree must be a no-op (the GSC still holds)
+                                ctx.cov["reruns_of_a_finished_tree"] += 1
+                                tree.run()
                     ctx.tree = tree
                 if run:
                     ctx.emit("run_end", ctx.tree)
